@@ -158,7 +158,7 @@ func runC20(c *Ctx) {
 		}
 	}
 	c.Meta(map[string]interface{}{
-		"rule": "for every state reached by BFS (depth as stated), every query of the menu (all operators on indexed, unique and unindexed fields, And/Or pairs) is evaluated and kept; every write sequence of length <= 2 from the write menu (inserts below/inside/above the range, updates into/out of/within the range, deletes of members and non-members, DeleteAll) is applied; then Collect, Assign, One and Len on the kept value: only objects matched at evaluation time, none twice, survivors not silently lost. Non-trivial = distinct (state, query, write sequence) triples on non-empty collections.",
+		"rule":    "for every state reached by BFS (depth as stated), every query of the menu (all operators on indexed, unique and unindexed fields, And/Or pairs) is evaluated and kept; every write sequence of length <= 2 from the write menu (inserts below/inside/above the range, updates into/out of/within the range, deletes of members and non-members, DeleteAll) is applied; then Collect, Assign, One and Len on the kept value: only objects matched at evaluation time, none twice, survivors not silently lost. Non-trivial = distinct (state, query, write sequence) triples on non-empty collections.",
 		"queries": len(queries), "write_sequences": len(seqs), "configs": cfgs, "depth": depth,
 	})
 }
